@@ -6,6 +6,7 @@ EML = X + "mail/eml_email_extractor.py"
 MBOX = X + "mail/mbox_email_extractor.py"
 MSG = X + "mail/msg_email_extractor.py"
 
+EM = "sharepoint2text/parsing/extractors/mail/eml_email_extractor.py"
 MUTANTS = [
     M("mbox-attachments-not-passed", MBOX, "        attachments=get_attachments(message),\n", "", "C16-SIB"),
     M("mbox-html-body-not-passed", MBOX, "        body_html=body_html,\n        attachments=get_attachments(message),", "        attachments=get_attachments(message),", "C16-SIB"),
@@ -27,6 +28,7 @@ MUTANTS = [
     M("route-mime-only", D, "            try:\n                extractor = get_extractor(attachment.filename)\n            except ExtractionFileFormatNotSupportedError:\n                file_type = MIME_TYPE_MAPPING.get(attachment.mime_type)\n                if not file_type:", "            if True:\n                file_type = MIME_TYPE_MAPPING.get(attachment.mime_type)\n                if not file_type:", "C16-ROUTE"),
     M("route-no-rewind-after", D, "            finally:\n                attachment.data.seek(0)\n\n    def get_full_text(self) -> str:\n        return _join_unit_text(self.iterate_units())\n\n    def get_metadata(self) -> EmailMetadata:", "            finally:\n                pass\n\n    def get_full_text(self) -> str:\n        return _join_unit_text(self.iterate_units())\n\n    def get_metadata(self) -> EmailMetadata:", "C16-ROUTE"),
     M("route-failure-aborts", D, "            except Exception as exc:\n                logger.debug(\n                    \"Failed to extract attachment: %s (mime=%s) error=%s\",\n                    attachment.filename,\n                    attachment.mime_type,\n                    exc,\n                )\n", "            except Exception as exc:\n                logger.debug(\n                    \"Failed to extract attachment: %s (mime=%s) error=%s\",\n                    attachment.filename,\n                    attachment.mime_type,\n                    exc,\n                )\n                raise\n", "C16-ROUTE"),
+    M("attachment-transcoded", EM, "        data_stream = io.BytesIO(data)\n", "        if mime_type.startswith(\"text/\"):\n            data = data.decode(\"latin-1\").encode(\"utf-8\")\n        data_stream = io.BytesIO(data)\n", "C16-BYTES"),
 ]
 
 TWINS = [
@@ -46,5 +48,7 @@ SEEDED = [
     ("C16-3", "C16-ATT"),
     ("C16-4", "C16-ORDER"),
     ("C16-5", "C16-ROUTE"),
+    ("C16-6", "C16-BYTES"),
+    ("C16-7", "C16-BYTES"),
 ]
 MUTANTS = list(MUTANTS) + [_P("seed-" + sid, _os.path.join(_SEEDS, sid, "patch.diff"), rule) for sid, rule in SEEDED if _os.path.exists(_os.path.join(_SEEDS, sid, "patch.diff"))]
